@@ -245,12 +245,26 @@ def r01_4(ctx, p):
     readers = []
     for cls_ in (rp, js):
         for mname, f in sorted(cls_.methods.items()):
-            if mname in ("__init__", "_apply_delete_study", "_apply_create_trial", "_apply_create_study", "restore_replay_result"):
+            if mname in ("__init__", "_apply_delete_study", "restore_replay_result"):
                 continue
+            creating = mname in ("_apply_create_trial", "_apply_create_study")
+            pmf = parent_map(f.node) if creating else None
             g = None
             for x in own_nodes(f.node):
                 if isinstance(x, ast.Attribute) and x.attr in residual and isinstance(x.ctx, ast.Load) and \
                         norm(x.value) in ("self", "self._replay_result"):
+                    if creating:
+                        # the create handlers allocate ids from the size of a container that is never cleaned (ids are
+                        # never re-used) and insert into it; any other read - a membership test above all - would see
+                        # entries of deleted studies
+                        par = pmf.get(id(x))
+                        gp = pmf.get(id(par)) if par is not None else None
+                        is_len = isinstance(par, ast.Call) and dotted(par.func) == "len"
+                        is_insert = (isinstance(par, ast.Subscript) and isinstance(par.ctx, (ast.Store, ast.Del))) or \
+                            (isinstance(par, ast.Attribute) and par.attr in ("append", "add", "setdefault", "update", "extend") and isinstance(gp, ast.Call) and gp.func is par) or \
+                            (isinstance(par, ast.Subscript) and isinstance(gp, ast.Attribute) and gp.attr in ("append", "add", "extend"))
+                        if is_len or is_insert:
+                            continue
                     if g is None:
                         g = CFG(f.node, name=f.qualname)
                     readers.append((cls_, f, x, g))
